@@ -13,7 +13,7 @@ import (
 func init() { suites["c19-chains"] = suiteC19 }
 
 // filters left out of chains: not deterministic, or needing special input
-var c19Skip = map[string]bool{"random": true, "date": true, "time": true, "verifprobe": true, "stringformat": true, "urlize": true,
+var c19Skip = map[string]bool{"random": true, "date": true, "time": true, "verifprobe": true, "veriftwin": true, "stringformat": true, "urlize": true,
 	"urlizetrunc": true, "title": true, "linebreaks": true, "phone2numeric": true, "removetags": true, "truncatechars_html": true, "truncatewords_html": true}
 
 // parameter sources per filter (template source; value from the context or literal)
